@@ -107,7 +107,8 @@ InitM(T) ==
    cnt     |-> [s \in Ids(T) |-> 0],               \* conv: calls of the convert function so far
    crd     |-> [s \in Ids(T) |-> 0 - 1],           \* child: value of closedNum it read (only used by the seeded-defect variant of
                                                    \* Streams.tla in which the atomic.AddUint32 is a separate read and write)
-   live    |-> [s \in Ids(T) |-> IF s \in TopMerges(T) THEN MStreams(T, s) ELSE {}],           \* chosenList
+   live    |-> [s \in Ids(T) |-> IF Kd(T, s) = "merge" /\ ~ArrLike(T, s) THEN MStreams(T, s) ELSE {}],   \* chosenList; also for a merged
+                          \* reader that is merged again later: it may be read (and see sources end) BEFORE the outer merge is built
    fst     |-> [s \in Ids(T) |-> IF s \in Fwd(T) THEN "recv" ELSE "none"]]                     \* forwarder goroutine
 
 \* StreamReader.Close
@@ -208,9 +209,9 @@ InitG(T, id) ==
    cret  |-> [r \in Ids(T) |-> FALSE]]
 NoG == [id |-> "", bad |-> "no-case"]
 
-RECURSIVE ViewOf(_, _, _, _)
+RECURSIVE ViewOf(_, _, _, _, _)
 \* what path q (leaf ... root) lets through of the root's sequence
-ViewOf(T, q, i, base) ==
+ViewOf(T, q, i, base, got) ==
   IF i = 0 THEN base
   ELSE LET r == q[i] IN
        IF Kd(T, r) = "conv" THEN
@@ -220,14 +221,18 @@ ViewOf(T, q, i, base) ==
                             (IF T[r].n > 0 /\ c + 1 = T[r].n THEN <<PANICV>>            \* the panic is delivered as an error item, nothing after it
                              ELSE IF Skips(T, r, Head(s)) THEN F(Tail(s), c + 1) ELSE <<ConvMap(Head(s))>> \o F(Tail(s), c + 1))
                          ELSE <<Head(s)>> \o F(Tail(s), c)
-          IN ViewOf(T, q, i - 1, F(base, 0))
-       ELSE IF Kd(T, r) = "copy" THEN ViewOf(T, q, i - 1, DropN(base, T[r].idx))      \* what the pre-reader took is not delivered again
-       ELSE ViewOf(T, q, i - 1, base)
+          IN ViewOf(T, q, i - 1, F(base, 0), got)
+       ELSE IF Kd(T, r) = "copy" THEN ViewOf(T, q, i - 1, DropN(base, T[r].idx), got)  \* what the pre-reader took is not delivered again
+       ELSE IF Kd(T, r) = "merge" /\ i > 1 THEN
+          \* a merged reader that was read before it was merged again ("partly drained"): what it delivered of this path then -- the
+          \* items of got[r] that belong to this path, necessarily a prefix of it -- is not delivered again by the outer reader
+          ViewOf(T, q, i - 1, DropN(base, Cardinality({j \in 1..Len(got[r]) : got[r][j] \in Range(base)})), got)
+       ELSE ViewOf(T, q, i - 1, base, got)
 RootSeq(G, T, p, complete) == IF Kd(T, p) = "array" THEN T[p].items ELSE IF complete THEN G.ok[p] ELSE G.off[p]
 \* a path through a panicking convert: the merged reader may see the end of that source before the writer's sends have returned, and what
 \* the path lets through is cut at the panic anyway, so the offered sequence is the base also for the complete-at-EOF check
 PanicPath(T, q) == \E i \in 1..Len(q) : Kd(T, q[i]) = "conv" /\ T[q[i]].n > 0
-Views(G, T, r, complete) == [q \in PathsFrom(T, r) |-> ViewOf(T, q, Len(q) - 1, RootSeq(G, T, q[Len(q)], complete /\ ~PanicPath(T, q)))]
+Views(G, T, r, complete) == [q \in PathsFrom(T, r) |-> ViewOf(T, q, Len(q) - 1, RootSeq(G, T, q[Len(q)], complete /\ ~PanicPath(T, q)), G.got)]
 \* s is an interleaving of prefixes of the sequences V[i] (of the whole sequences when complete)
 RECURSIVE Shuf(_, _, _)
 Shuf(s, V, complete) ==
